@@ -119,10 +119,13 @@ def run(ctx):
     ctx.cov["hunt_by_site"] = h.get("by_site", {})
     ctx.cov["scratch_argument_is_operand_unsafe"] = h.get("tmp_alias_unsafe", {})
     unknown = []
+    seen_kf = set()
     for hit in h.get("hits", []):
         kf = is_known(hit)
         if kf:
-            ctx.known_finding(kf["id"], kf["what"])
+            if kf["id"] not in seen_kf:
+                seen_kf.add(kf["id"])
+                ctx.known_finding(kf["id"], kf["what"])
         else:
             unknown.append(hit)
     for hit in unknown:
